@@ -358,6 +358,8 @@ def simp(t):
 
 def as_const(t):
     """python constant if z3 term is a literal, else None (returns (True, value) / (False, None))"""
+    if z3.is_fp(t):
+        return False, None
     t = z3.simplify(t)
     if z3.is_true(t):
         return True, True
